@@ -52,6 +52,16 @@ def _kpos(x):
     return (v.lineno, v.col_offset)
 
 
+def _container(parent, field):
+    """the node a slice of this field is when it is put as ONE element (documented `__FSO_`): a List / Tuple / Set of its
+    elements; call arguments become a Tuple"""
+    if isinstance(parent, (ast.List, ast.Tuple, ast.Set)) and field == 'elts':
+        return parent.__class__
+    if isinstance(parent, ast.Call) and field in ('args', '_args'):
+        return ast.Tuple
+    return None
+
+
 class Matcher:
     """ask the real matcher about pure nodes"""
 
@@ -106,11 +116,11 @@ class Matcher:
             elif isinstance(v, FSTView):
                 base = _resolve(node, f.child_path(v.base)) if v.base is not f else node
                 if base.__class__ in VIRT and v.field == VIRT[base.__class__][2]:
-                    caps[tag] = ('slice', self.arglikes(base)[v.start:v.stop])
+                    caps[tag] = ('slice', self.arglikes(base)[v.start:v.stop], _container(base, v.field))
                 elif not hasattr(base, v.field):
                     raise Skip('virtual view')
                 else:
-                    caps[tag] = ('slice', list(getattr(base, v.field)[v.start:v.stop]))
+                    caps[tag] = ('slice', list(getattr(base, v.field)[v.start:v.stop]), _container(base, v.field))
             elif isinstance(v, list):
                 out = []
                 parent = None
@@ -133,7 +143,7 @@ class Matcher:
                         self.noncontig = True
                         if self.range_fill:                     # what a first..last range of the list would hold
                             out = list(lst[min(idxs):max(idxs) + 1])
-                    caps[tag] = ('slice', out)
+                    caps[tag] = ('slice', out, _container(pn, fname))
             elif v is None:
                 continue
             else:
@@ -230,7 +240,7 @@ class Ref:
     def fill(self, node, caps, deep):
         """-> (nodes, put as a slice)"""
         sliced = self.tkind == 'stmts'
-        if deep and sliced and self.quirk:
+        if deep and sliced and self.quirk is True:
             deep = False
 
         def T(c):
@@ -242,15 +252,20 @@ class Ref:
         def cap(m):
             letter, tag = m.group(1), m.group(2)
             if not tag:
-                if letter == 'S':
-                    raise Skip('__FSS_ on a node')
                 return ('whole', node)
             c = caps.get(tag)
             if c is None:
                 return None
-            if (c[0] == 'node' and letter == 'S') or (c[0] == 'slice' and letter == 'O'):
-                raise Skip('override against the default decision')
             return c
+
+        def against(c, letter):
+            return c is not None and ((c[0] != 'slice' and letter == 'S') or (c[0] == 'slice' and letter == 'O'))
+
+        def ident(m):
+            c = cap(m)
+            if c is None or c[0] == 'slice' or not isinstance(c[1], ast.Name):
+                raise Skip('identifier slot without a Name capture')
+            return c[1].id
 
         def put(c):
             if c[0] == 'whole':
@@ -265,6 +280,8 @@ class Ref:
         def inst(t, parent, field, in_list):
             if isinstance(t, ast.Expr) and isinstance(t.value, ast.Name) and (m := SLOT.match(t.value.id)) and in_list:
                 c = cap(m)
+                if against(c, m.group(1)):
+                    raise Skip('override against the default decision in a statement slot')
                 if c is None:
                     return []
                 first = c[1] if c[0] != 'slice' else (c[1][0] if c[1] else None)
@@ -282,11 +299,43 @@ class Ref:
                     if in_list:
                         return []
                     raise Refuse('delete of a required field')
-                if c[0] == 'slice' and not in_list:
-                    raise Skip('slice in a single field')
+                letter = m.group(1)
+                # the documented decision: one = not slice; __FSO_ / __FSS_ override it; a slice into a non-list field
+                # is put as one element
+                one = c[0] != 'slice'
+                if letter == 'O':
+                    one = True
+                elif letter == 'S':
+                    one = False
+                elif not one and not in_list:
+                    one = True
                 if c[0] == 'slice' and c[1] and isinstance(c[1][0], ast.stmt):
                     raise Skip('statement slice in an expression slot')
-                return put(c)
+                if c[0] != 'slice':
+                    if one:
+                        return put(c)
+                    if not in_list:
+                        raise Refuse('slice put into a single field')
+                    src_node = c[1]
+                    if isinstance(src_node, (ast.List, ast.Tuple, ast.Set)):        # forced slice: its elements
+                        out = []
+                        for i, e in enumerate(src_node.elts):
+                            if (i == 0 and self.quirk == 'first-dirty' and c[0] == 'whole' and deep
+                                    and not isinstance(parent, (ast.Call, ast.ClassDef))):
+                                out.append(copy.deepcopy(e))         # variant: the first spliced element is never looked at
+                            else:
+                                out.extend(T(e))
+                        return out
+                    return put(c)                                                    # not a sequence: one element
+                if not one:
+                    return put(c)
+                if deep:
+                    # the container is a new node that can itself match (the docs warn about __FSO_ and nested)
+                    raise Skip('slice as one element under nested')
+                kind = c[2] if len(c) > 2 else None                                  # the slice as ONE element
+                if kind is None or any(isinstance(x, (ast.keyword, ast.Starred)) for x in c[1]):
+                    raise Skip('slice as one element: container not covered')
+                return [kind(elts=put(c), ctx=ast.Load()) if kind is not ast.Set else ast.Set(elts=put(c))]
             if isinstance(t, ast.Constant) and isinstance(t.value, (str, bytes)):
                 text = t.value if isinstance(t.value, str) else t.value.decode('latin-1')
                 if STR_SLOT.search(text):
@@ -318,6 +367,11 @@ class Ref:
                     n._c18_spec = (parts, isinstance(t.value, bytes))
                     return [n]
             n = copy.copy(t)
+            for name, v in ast.iter_fields(t):                       # identifier slots: the id of the captured Name
+                if isinstance(v, str) and not isinstance(t, ast.Constant) and (m := SLOT.match(v)):
+                    setattr(n, name, ident(m))
+                elif isinstance(v, list) and v and all(isinstance(x, str) for x in v):
+                    setattr(n, name, [ident(mm) if (mm := SLOT.match(x)) else x for x in v])
             vf = VIRT.get(t.__class__)
             if vf:
                 # arguments / bases: ONE list in the template's source order; captured keywords go to `keywords`, the
